@@ -305,7 +305,8 @@ class FileScan:
 
     def add(self, call, kind, ty, sub, use=("NA",), note=""):
         fnname, _ = self.enclosing(call)
-        self.sites.append({"file": self.rel, "line": call.lineno, "func": fnname, "kind": kind,
+        self.sites.append({"file": self.rel, "line": call.lineno, "end_line": getattr(call, "end_lineno", call.lineno),
+                           "func": fnname, "kind": kind,
                            "type": ty, "sub": sub, "use": use, "note": note,
                            "src": " ".join(ast.unparse(call).split())[:110]})
 
